@@ -30,6 +30,9 @@ pub struct ElfSpec {
     pub sections_at_end: bool,
     /// an allocated, non-executable PROGBITS section (.rodata) precedes .text in the section table
     pub rodata_before_text: bool,
+    /// the data segment is loaded this many pages above where a flat layout would put it; the
+    /// loader leaves an inaccessible reserved gap in between
+    pub data_gap_pages: u64,
 }
 
 #[derive(Clone, Debug)]
@@ -37,6 +40,9 @@ pub struct ElfImage {
     pub file: Vec<u8>,
     /// number of bytes the loader maps (file may be longer)
     pub mapped_len: u64,
+    /// virtual address (relative to the load base) of the data page and of the dynamic section
+    pub data_vaddr: u64,
+    pub dyn_vaddr: u64,
     pub phoff: u64,
     pub phnum: u64,
     pub text_off: u64,
@@ -66,12 +72,12 @@ fn put64(v: &mut [u8], off: usize, x: u64) {
     v[off..off + 8].copy_from_slice(&x.to_le_bytes());
 }
 
-fn phdr(v: &mut [u8], off: usize, ty: u32, flags: u32, p_off: u64, filesz: u64, align: u64) {
+fn phdr(v: &mut [u8], off: usize, ty: u32, flags: u32, p_off: u64, vaddr: u64, filesz: u64, align: u64) {
     put32(v, off, ty);
     put32(v, off + 4, flags);
     put64(v, off + 8, p_off);
-    put64(v, off + 16, p_off); // vaddr
-    put64(v, off + 24, p_off); // paddr
+    put64(v, off + 16, vaddr);
+    put64(v, off + 24, vaddr); // paddr
     put64(v, off + 32, filesz);
     put64(v, off + 40, filesz); // memsz
     put64(v, off + 48, align);
@@ -79,11 +85,16 @@ fn phdr(v: &mut [u8], off: usize, ty: u32, flags: u32, p_off: u64, filesz: u64, 
 
 #[allow(clippy::too_many_arguments)]
 fn shdr(v: &mut [u8], off: usize, name: u32, ty: u32, flags: u64, addr: u64, size: u64, link: u32, align: u64, entsize: u64) {
+    shdr2(v, off, name, ty, flags, addr, addr, size, link, align, entsize)
+}
+
+#[allow(clippy::too_many_arguments)]
+fn shdr2(v: &mut [u8], off: usize, name: u32, ty: u32, flags: u64, addr: u64, file_off: u64, size: u64, link: u32, align: u64, entsize: u64) {
     put32(v, off, name);
     put32(v, off + 4, ty);
     put64(v, off + 8, flags);
     put64(v, off + 16, addr);
-    put64(v, off + 24, addr); // offset == addr
+    put64(v, off + 24, file_off);
     put64(v, off + 32, size);
     put32(v, off + 40, link);
     put32(v, off + 44, 0);
@@ -96,8 +107,10 @@ pub fn build(spec: &ElfSpec) -> ElfImage {
     let text_off = 0x1000u64;
     let text_len = text_pages * 0x1000;
     let data_off = text_off + text_len;
-    let mapped = data_off + 0x1000;
-    let total = if spec.sections && spec.sections_at_end { mapped + 0x1000 } else { mapped };
+    let gap = spec.data_gap_pages * 0x1000;
+    let mapped = data_off + gap + 0x1000;
+    let file_mapped = data_off + 0x1000;
+    let total = if spec.sections && spec.sections_at_end { file_mapped + 0x1000 } else { file_mapped };
     let mut f = vec![0u8; total as usize];
 
     // text
@@ -161,27 +174,28 @@ pub fn build(spec: &ElfSpec) -> ElfImage {
 
     // program headers at 0x40
     let phoff = 0x40u64;
-    let mut ph: Vec<(u32, u32, u64, u64, u64)> = Vec::new();
+    // (type, flags, file offset, size, align, vaddr - offset)
+    let mut ph: Vec<(u32, u32, u64, u64, u64, u64)> = Vec::new();
     if spec.with_pt_phdr {
-        ph.push((PT_PHDR, 4, phoff, 0, 8));
+        ph.push((PT_PHDR, 4, phoff, 0, 8, 0));
     }
-    ph.push((PT_LOAD, 4, 0, 0x1000, 0x1000));
-    ph.push((PT_LOAD, 5, text_off, text_len, 0x1000));
-    ph.push((PT_LOAD, 6, data_off, 0x1000, 0x1000));
+    ph.push((PT_LOAD, 4, 0, 0x1000, 0x1000, 0));
+    ph.push((PT_LOAD, 5, text_off, text_len, 0x1000, 0));
+    ph.push((PT_LOAD, 6, data_off, 0x1000, 0x1000, gap));
     if spec.build_id.is_some() && spec.note_in_phdr {
-        ph.push((PT_NOTE, 4, note_off, note_len, 4));
+        ph.push((PT_NOTE, 4, note_off, note_len, 4, 0));
     }
-    ph.push((PT_DYNAMIC, 6, dyn_off, dyn_len, 8));
+    ph.push((PT_DYNAMIC, 6, dyn_off, dyn_len, 8, gap));
     let phnum = ph.len() as u64;
     if spec.with_pt_phdr {
         ph[0].3 = phnum * 56;
     }
-    for (i, (ty, fl, o, sz, al)) in ph.iter().enumerate() {
-        phdr(&mut f, phoff as usize + i * 56, *ty, *fl, *o, *sz, *al);
+    for (i, (ty, fl, o, sz, al, dv)) in ph.iter().enumerate() {
+        phdr(&mut f, phoff as usize + i * 56, *ty, *fl, *o, *o + *dv, *sz, *al);
     }
 
     // sections
-    let (shstr_off, shoff) = if spec.sections_at_end { (mapped + 0x380, mapped + 0x400) } else { (0x380u64, 0x400u64) };
+    let (shstr_off, shoff) = if spec.sections_at_end { (file_mapped + 0x380, file_mapped + 0x400) } else { (0x380u64, 0x400u64) };
     let mut shnum = 0u16;
     if spec.sections {
         let names = b"\0.text\0.note.gnu.build-id\0.shstrtab\0.dynamic\0.dynstr\0";
@@ -212,7 +226,7 @@ pub fn build(spec: &ElfSpec) -> ElfImage {
         shdr(&mut f, base + i * 64, n_shstr, 3, 0, shstr_off, names.len() as u64, 0, 1, 0);
         i += 1;
         let dynstr_sec_idx = i + 1;
-        shdr(&mut f, base + i * 64, n_dynamic, 6, 3, dyn_off, dyn_len, dynstr_sec_idx as u32, 8, 16);
+        shdr2(&mut f, base + i * 64, n_dynamic, 6, 3, dyn_off + gap, dyn_off, dyn_len, dynstr_sec_idx as u32, 8, 16);
         i += 1;
         shdr(&mut f, base + i * 64, n_dynstr, 3, 2, dynstr_off, dynstr_len, 0, 1, 0);
         i += 1;
@@ -242,6 +256,8 @@ pub fn build(spec: &ElfSpec) -> ElfImage {
     ElfImage {
         file: f,
         mapped_len: mapped,
+        data_vaddr: data_off + gap,
+        dyn_vaddr: dyn_off + gap,
         phoff,
         phnum,
         text_off,
